@@ -14,6 +14,12 @@ inductive Res where
   | mem                    -- memory and the store log (STOREW)
 deriving Repr, DecidableEq, Inhabited
 
+/-- what the specification-level `hex_set_usr_field(args)` can change: the abstract cell of its field -/
+def usrWrites (args : List ILPure) : List Res :=
+  match args.map extName with
+  | [_, some n, _] => [.reg (usrCell n)]
+  | _ => []
+
 mutual
 /-- Everything `execIL ms subs fuel e` can change (over-approximation: both arms of a BRANCH, loop bodies,
     the bodies of called sub-routines). -/
@@ -29,11 +35,11 @@ def writes (subs : SubEnv) : Nat → ILEffect → List Res
     | .repeat_ _ body => writes subs fuel body
     | .empty => []
     | .nop => []
-    | .call f _ =>
+    | .call f args =>
         if f.startsWith "hex_" then
           match lookupS (f.drop 4).toString subs with
           | some (_, body) => writes subs fuel body
-          | none => []
+          | none => if f == "hex_set_usr_field" then usrWrites args else []
         else if f == "HEX_STORE_SLOT_CANCELLED" then [.loc "$slot_cancelled"]
         else if f == "HEX_GET_NPC" then [.loc "ret_val"]
         else []
